@@ -130,4 +130,32 @@ def TABLES():
         raise Untranslatable('FileHandler.reopen: expected open(self.baseFilename, self.mode)')
     out.append('-- FileHandler.reopen:%d  %s' % (ocalls[0].lineno, ast.unparse(ocalls[0])))
     out.append('def fhReopen_idx : Int := %s' % _name_index(tr, ocalls[0].args[0], 'reopen'))
+    # ---- POutputDispatcher.removelogs / reopenlogs: which loggers they walk, which handler methods they call ----
+    dsrc = open(os.path.join(extract.REPO, 'supervisor/dispatchers.py')).read()
+    dtree = ast.parse(dsrc)
+    for fn in ('removelogs', 'reopenlogs'):
+        f = find_func(dtree, 'POutputDispatcher.' + fn)
+        loops = [n for n in ast.walk(f) if isinstance(n, ast.For)]
+        inner = [l for l in loops if isinstance(l.target, ast.Name) and l.target.id == 'handler']
+        if len(inner) != 1:
+            raise Untranslatable('POutputDispatcher.%s: one `for handler in ...` loop expected' % fn)
+        it = ast.unparse(inner[0].iter)
+        outer = [l for l in loops if l is not inner[0]]
+        if it == 'log.handlers' and len(outer) == 1 and isinstance(outer[0].iter, (ast.Tuple, ast.List)) \
+                and isinstance(outer[0].target, ast.Name) and outer[0].target.id == 'log':
+            targets = [ast.unparse(e) for e in outer[0].iter.elts]
+        elif it.endswith('.handlers') and not outer:
+            targets = [it[:-len('.handlers')]]
+        else:
+            raise Untranslatable('POutputDispatcher.%s: loop shape %s' % (fn, it))
+        calls = []
+        for st in inner[0].body:
+            if not (isinstance(st, ast.Expr) and isinstance(st.value, ast.Call) and isinstance(st.value.func, ast.Attribute)
+                    and ast.unparse(st.value.func.value) == 'handler' and not st.value.args):
+                raise Untranslatable('POutputDispatcher.%s: handler.<method>() statements expected' % fn)
+            calls.append(st.value.func.attr)
+        out.append('-- POutputDispatcher.%s:%d  for handler in the handlers of %s: %s' % (
+            fn, f.lineno, ', '.join(targets), '; '.join('handler.%s()' % c for c in calls)))
+        out.append('def %s_targets : List String := [%s]' % (fn, ', '.join(extract.lean_str(t) for t in targets)))
+        out.append('def %s_calls : List String := [%s]' % (fn, ', '.join(extract.lean_str(c) for c in calls)))
     return out
